@@ -67,3 +67,26 @@ Example C17_example :
   let m : nmap N := [(1, 10); (2, 20); (4, 40); (7, 70); (9, 90)] in
   pages 10 m (Some 1) 2 (fun v => negb (v =? 40)) = [(2, 20); (7, 70); (9, 90)].
 Proof. vm_compute. reflexivity. Qed.
+
+(* AllUnstakeRequests / AllUnstakeRequestsV2 walk the by-user index: the rows after the cursor key ("", start_after),
+   at most `limit` of them; with no cursor and no limit every open request exactly once, in index-key order
+   (length of user, user bytes, batch id) *)
+From Coq Require Import Permutation Sorted.
+Theorem C17_all_requests : forall s sa lim rs,
+  (query s (QAllRequests sa lim) = Ok (RRequests rs) \/ query s (QAllRequestsV2 sa lim) = Ok (RRequests rs)) ->
+  rs = all_requests (requests s) sa lim.
+Proof. exact query_all_requests_spec. Qed.
+Print Assumptions C17_all_requests.
+Theorem C17_all_requests_complete : forall rs,
+  N.of_nat (List.length rs) <= u32_max ->
+  Permutation (all_requests rs None None) rs
+  /\ Sorted (fun a b => req_index_le a b = true) (all_requests rs None None).
+Proof. exact all_requests_complete. Qed.
+Print Assumptions C17_all_requests_complete.
+Example C17_all_requests_example :
+  all_requests [ {| r_batch := 2; r_user := "osmo1zz"; r_amount := 5 |}; {| r_batch := 1; r_user := "osmo1zz"; r_amount := 7 |};
+                 {| r_batch := 2; r_user := "osmo1a"; r_amount := 9 |}; {| r_batch := 1; r_user := "osmo1abcd"; r_amount := 1 |} ]
+               (Some 1) (Some 3)
+  = [ {| r_batch := 2; r_user := "osmo1a"; r_amount := 9 |}; {| r_batch := 1; r_user := "osmo1zz"; r_amount := 7 |};
+      {| r_batch := 2; r_user := "osmo1zz"; r_amount := 5 |} ].
+Proof. vm_compute. reflexivity. Qed.
